@@ -59,6 +59,8 @@ class MapFuture(_Future):
         self._set_delegate(None)
 
         if delegate.cancelled():
+            # Cancelled by someone else (if it was by us, we're cancelled already)
+            self._me_cancel_with_delegate()
             return
 
         ex = delegate.exception()
